@@ -554,6 +554,11 @@ class Repo:
                         return base.fmt
                     if isinstance(base, DCVal) and expr.attr in base.fields:
                         return base.fields[expr.attr]
+                    if isinstance(base, DCVal) and _depth < 30 and expr.attr in base.cls.methods and base.cls.is_property(expr.attr):
+                        # a property of a folded dataclass value whose body is one return: its expression over the fields
+                        body = [st for st in base.cls.methods[expr.attr].body if not (isinstance(st, ast.Expr) and isinstance(st.value, ast.Constant))]
+                        if len(body) == 1 and isinstance(body[0], ast.Return) and body[0].value is not None:
+                            return self.fold(base.cls.module, body[0].value, {"self": base}, _depth + 1)
             s = self.resolve(module, expr)
             if s is None:
                 raise NotConst(f"unresolved name {unparse(expr)}")
